@@ -178,6 +178,16 @@ func generate(w *mon.W) {
 			w.Do(l2, func(r *mon.R) { Check(l2, r) })
 		}
 	}
+	// small mantissas behind 0 to 45 zeros after the point, and in front of as
+	// many before it: the accessors agree with the exact value at every scale
+	for _, mant := range []string{"1", "7", "25", "123", "4503599627370497", "9007199254740993", "99999999999999"} {
+		for z := 0; z <= 45; z++ {
+			for _, lit := range []string{"0." + strings.Repeat("0", z) + mant, "." + strings.Repeat("0", z) + mant, mant + strings.Repeat("0", z), mant + strings.Repeat("0", z) + ".0", mant + "e-" + fmt.Sprint(z), mant + "." + strings.Repeat("0", z) + "1"} {
+				l3 := lit
+				w.Do(l3, func(r *mon.R) { Check(l3, r) })
+			}
+		}
+	}
 	// prefixes of corpus programs: end of input in every scanner state
 	for _, p := range gen.Seeds() {
 		for i := 1; i <= len(p); i++ {
